@@ -301,6 +301,12 @@ def run_shard(pid, tier, seed, shard, nshards, mode, out, bucket=None):
         from hypothesis import HealthCheck, Phase, given, settings
 
         n = max(1, b["max_examples"] // nshards)
+        # Hypothesis always starts the generate phase with the all-simplest example, whatever the seed: evaluate it on
+        # shard 0 only, so that shards with few examples do not all spend their budget on the same case.
+        skip_first = mode == "given" and shard > 0
+        if skip_first:
+            n += 1
+        ncalls = [0]
         strat = mod.strategy(tier)
         phases = [Phase.generate] if mode == "given" else [Phase.generate, Phase.shrink]
         stg = settings(
@@ -320,6 +326,9 @@ def run_shard(pid, tier, seed, shard, nshards, mode, out, bucket=None):
             @stg
             @given(strat)
             def test(case):
+                ncalls[0] += 1
+                if skip_first and ncalls[0] == 1:
+                    return
                 if time.time() - t0 > wall:
                     acc.budget_skipped += 1
                     return
